@@ -23,6 +23,8 @@ props! {
     c06 => "C06",
     c07 => "C07",
     c08 => "C08",
+    c09 => "C09",
+    c10 => "C10",
     c17 => "C17",
     c19 => "C19",
 }
